@@ -147,7 +147,14 @@ def r42(ctx, wr):
                    'max/min of BYTE_ARRAY+converted type lose the 4-byte PLAIN length prefix; other types keep PLAIN bytes', wr.loc(t))
         if name == 'categorical':
             dn = [s for s in t.body if isinstance(s, ast.Assign) and norm(s.targets[0]) == 'dnnu']
-            okd = len(dn) == 1 and norm(dn[0].value).startswith('data0.unique()')
+            # the chain of definitions of dnnu starts from the values present in this chunk
+            okd = len(dn) >= 1 and norm(dn[0].value).startswith('data0.unique()') and all(
+                'dnnu' in norm(x.value) for x in dn[1:])
+            # ... and the extremes are taken by the labels' own order: an ordered view of the categorical (as_ordered)
+            # ranks by category position
+            byval = not any('as_ordered' in norm(x.value) for x in dn) and any('categories.dtype' in norm(x.value) for x in dn)
+            ctx.ob('R4.2', 'writer.write_column:categorical-bounds-ordered-by-label-value', byval,
+                   '%s: max()/min() of an ordered categorical go by category position, not by value' % [norm(x)[:70] for x in dn], wr.loc(t))
             ctx.ob('R4.2', 'writer.write_column:categorical-bounds-from-the-values-present-in-the-chunk', okd,
                    '`%s`: the bounds describe the values stored in this chunk (data0.unique()), not the dtype\'s category set' % (
                        norm(dn[0]) if dn else '?'), wr.loc(t))
